@@ -95,6 +95,20 @@ impl Peer {
             }
         }
     }
+    /// payloads of the complete frames already received, left in place
+    fn peek_frames(&self) -> Vec<Vec<u8>> {
+        let mut v = vec![];
+        let mut at = 0;
+        while self.buf.len() >= at + 8 {
+            let len = usize::from_le_bytes(self.buf[at..at + 8].try_into().unwrap());
+            if len < 8 || self.buf.len() < at + len {
+                break;
+            }
+            v.push(self.buf[at + 8..at + len].to_vec());
+            at += len;
+        }
+        v
+    }
     fn take_frame(&mut self) -> Option<Vec<u8>> {
         if self.buf.len() < 8 {
             return None;
@@ -286,6 +300,23 @@ fn request_of(verb: &str, rqn: usize, dir: &str, n: usize) -> (Request, Kind, bo
             }
             (rt(RequestType::LoadState(path)), Kind::Load, true, n)
         }
+        "loadbig" => {
+            // a state file larger than the parse buffer of load_state (200000 bytes here): n records, padded
+            let path = format!("{dir}/statebig{rqn}.json");
+            let mut f = std::fs::File::create(&path).unwrap();
+            for i in 0..n {
+                let wr = WorkerRequest {
+                    id: format!("SAVE-{i}"),
+                    content: rt(RequestType::AddCluster(Cluster {
+                        cluster_id: format!("big{rqn}x{i}-{}", "p".repeat(200)),
+                        ..Default::default()
+                    })),
+                };
+                f.write_all(serde_json::to_string(&wr).unwrap().as_bytes()).unwrap();
+                f.write_all(b"\n\0").unwrap();
+            }
+            (rt(RequestType::LoadState(path)), Kind::Load, true, n)
+        }
         "loadbad" => {
             // n valid records, then one that is cut in the middle (no terminator): the
             // parser stops there after the n requests have been scattered
@@ -320,7 +351,7 @@ enum Barrier {
 impl World {
     /// `handover`: Some(stopped worker or -1): the hub the case talks to is not the one that was
     /// built but the one `CommandHub::from_upgrade_data` re-creates from its serialised `UpgradeData`
-    fn start(nw: usize, timeout_s: u64, nc: usize, pids: &[i32], tag: &str, handover: Option<i64>) -> World {
+    fn start(nw: usize, timeout_s: u64, nc: usize, pids: &[i32], tag: &str, handover: Option<(i64, u64)>) -> World {
         let dir = format!("/tmp/c09-{}-{}", std::process::id(), tag);
         let _ = std::fs::remove_dir_all(&dir);
         std::fs::create_dir_all(&dir).unwrap();
@@ -350,7 +381,9 @@ impl World {
                     config.config_path = cfg_path;
                     config.command_socket = sp;
                     config.command_buffer_size = 16384;
-                    config.max_command_buffer_size = 2_000_000;
+                    // load_state parses max(200000, 2 x max_command_buffer_size) bytes at a time: keep that at
+                    // 200000 so that a state file of a thousand records spans two chunks (verb loadbig)
+                    config.max_command_buffer_size = 100_000;
                     config.worker_timeout = timeout_s as u32;
                     config.worker_automatic_restart = false;
                     config.worker_count = 0;
@@ -365,7 +398,7 @@ impl World {
                         hub.server.register_worker(id, pid, channel, scm).expect("register");
                         keep.push(scm_peer);
                     }
-                    if let Some(stopped) = handover {
+                    if let Some((stopped, issued)) = handover {
                         // what upgrade_main hands to the new main process, minus the fork:
                         // generate_upgrade_data -> JSON (as fork_main_into_new_main writes it) ->
                         // UpgradeData (as begin_new_main_process reads it) -> from_upgrade_data
@@ -381,7 +414,9 @@ impl World {
                             }
                         }
                         hub.server.boot_generation = 3;
-                        let data = hub.server.generate_upgrade_data();
+                        let mut data = hub.server.generate_upgrade_data();
+                        // the previous main process had issued `issued` task ids (and their request ids)
+                        data.next_task_id += issued as usize;
                         let json = serde_json::to_string(&data).expect("serialize UpgradeData");
                         let back: sozu::command::upgrade::UpgradeData = serde_json::from_str(&json).expect("parse UpgradeData");
                         let same = back.command_socket_fd == data.command_socket_fd
@@ -425,7 +460,7 @@ impl World {
             Some(_) => Some(ho_rx.recv_timeout(Duration::from_secs(20)).unwrap_or(false)),
             None => None,
         };
-        if let Some(st) = handover {
+        if let Some((st, _)) = handover {
             if st >= 0 && (st as usize) < workers.len() {
                 // a stopped worker is not re-registered by the new main process
                 workers[st as usize].closed = true;
@@ -715,6 +750,27 @@ impl World {
                 let b = self.barrier();
                 self.rqs[rqn].t_after = Instant::now();
                 let _ = b;
+                if nreq >= 100 {
+                    // a bulk scatter does not fit the socket buffers: the hub flushes it over several turns of
+                    // its loop, as the fake workers read; wait until every worker holds its share
+                    let t0 = Instant::now();
+                    loop {
+                        let mut all = true;
+                        for w in 0..self.workers.len() {
+                            if self.workers[w].closed || self.workers[w].absent {
+                                continue;
+                            }
+                            self.workers[w].peer.pump();
+                            if self.workers[w].peer.peek_frames().len() < nreq {
+                                all = false;
+                            }
+                        }
+                        if all || t0.elapsed() > Duration::from_secs(10) {
+                            break;
+                        }
+                        let _ = self.barrier();
+                    }
+                }
                 self.observe(out, &[]);
             }
             "resp" | "respu" => {
@@ -742,6 +798,35 @@ impl World {
                 self.workers[w].answered.push((id, st, s));
                 self.observe(out, &[]);
             }
+            "respold" => {
+                // a late answer to a request the PREVIOUS main process had scattered (task id below the
+                // counter the hand-over carried): the id is one this hub never issued
+                let w = a[0].n() as usize;
+                let id = format!("AddCluster-{w}-{}-0", a[1].n());
+                let st = a[2].n() as i32;
+                let resp = WorkerResponse { id: id.clone(), status: st, message: format!("w{w} late"), content: None };
+                if self.workers[w].closed || !self.workers[w].peer.send(&resp.encode_to_vec()) {
+                    out.note("invalid-case: worker channel closed");
+                }
+                self.observe(out, &[]);
+            }
+            "respall" => {
+                // worker w answers every request it has received so far (again, for those it had answered)
+                let w = a[0].n() as usize;
+                let st = a[1].n() as i32;
+                let ids: Vec<String> = self.workers[w].received.iter().map(|(id, _)| id.clone()).collect();
+                for id in ids {
+                    let resp = WorkerResponse { id: id.clone(), status: st, message: format!("w{w}"), content: None };
+                    if self.workers[w].closed || !self.workers[w].peer.send(&resp.encode_to_vec()) {
+                        out.note("invalid-case: worker channel closed");
+                        break;
+                    }
+                    self.seq += 1;
+                    let sq = self.seq;
+                    self.workers[w].answered.push((id, st, sq));
+                }
+                self.observe(out, &[]);
+            }
             "close" => {
                 let w = a[0].n() as usize;
                 self.workers[w].peer.close();
@@ -757,6 +842,27 @@ impl World {
                 let ms = a[0].n() as u64;
                 std::thread::sleep(Duration::from_millis(ms));
                 self.logical += ms;
+                // nothing was written to any socket of the hub meanwhile: a request whose deadline has
+                // certainly passed must have been answered by the loop's own wake-up, before the barrier
+                // below wakes it (theorem wakeup_covers_every_deadline)
+                let now = Instant::now();
+                for c in self.clients.iter_mut() {
+                    c.pump();
+                }
+                for i in 0..self.rqs.len() {
+                    let r = &self.rqs[i];
+                    if !r.timed || !r.finals.is_empty() || self.clients[r.client].sock.is_none() || self.clients[r.client].eof {
+                        // (a connection the main process closed: reported as stop-drops-pending at the end)
+                        continue;
+                    }
+                    if r.t_after + Duration::from_secs(self.timeout_s) + Duration::from_millis(250) < now {
+                        let answered = self.clients[r.client].peek_frames().iter().any(|f| Response::decode(&f[..]).map(|x| x.status != PROCESSING).unwrap_or(false));
+                        if !answered {
+                            out.viol("late-verdict", &format!("request {i} ({}) was past its deadline by more than 250 ms of silence and still unanswered: the event loop does not wake up for its deadline", r.verb));
+                            self.timing_ok = false;
+                        }
+                    }
+                }
                 self.observe(out, &[]);
             }
             _ => {
@@ -824,6 +930,9 @@ impl World {
             match r.kind {
                 Kind::NoAnswer => out.viol("no-answer", &format!("request {i} ({}) never got a final answer", r.verb)),
                 Kind::Local => out.viol("no-answer", &format!("request {i} ({}) is answered by the main process alone and never got a final answer", r.verb)),
+                _ if self.stopped && self.hub_failed.is_none() && !matches!(r.kind, Kind::Stop) => {
+                    out.viol("stop-drops-pending", &format!("request {i} ({}) was pending when another client's stop completed: the main process stopped and closed the connection without a final answer", r.verb));
+                }
                 _ => {
                     let expired = r.timed && self.logical > r.sent_logical + 1000 * self.timeout_s;
                     // every worker it was scattered to has answered each request terminally or closed
@@ -900,8 +1009,9 @@ fn attempt(case: &Case, pids: &[i32], n: usize) -> (Out, bool) {
                 let t = op.args[1].n() as u64;
                 let nc = op.args[2].n() as usize;
                 let stopped = op.args[3].n() as i64;
+                let issued = op.args.get(4).map(|a| a.n() as u64).unwrap_or(0);
                 let tag = format!("{}-{n}", case.id);
-                let mut w = World::start(nw, t, nc, pids, &tag, Some(stopped));
+                let mut w = World::start(nw, t, nc, pids, &tag, Some((stopped, issued)));
                 let ok = w.handover_ok == Some(true);
                 if !ok {
                     out.viol("upgrade-data", "UpgradeData did not survive its JSON round trip, or the re-created hub does not carry the state / boot generation");
